@@ -10,5 +10,5 @@ cp /repo/go.sum harness/go.sum
 ./.build/extract lean/Mercure/Generated/Facts.lean .build/facts.json /repo
 (cd lean && lake build Mercure driver)
 echo '{"Replace": {"/repo/verif_export_verif.go": "/verif/harness/overlay/verif_export.go"}}' > .build/overlay.json
-(cd harness && go build -tags verif -overlay ../.build/overlay.json -o ../.build/vh ./cmd/vh)
+export GOEXPERIMENT=synctest; (cd harness && go build -tags verif -overlay ../.build/overlay.json -o ../.build/vh ./cmd/vh)
 echo setup done
